@@ -835,6 +835,9 @@ func cutPoints(t *rapid.T, label string, n int, k int, valid func(int) int) []in
 // events. Chunk boundaries respect what the format requires: element boundary; character boundary for
 // string-likes; multiples of 8 bits for non-final bit-array chunks. Data-event boundaries are
 // element/character aligned unless midChar / midElem is set.
+// UnalignedBitChunks lets EmitChunks end a non-final bit-array chunk inside a byte.
+var UnalignedBitChunks = true
+
 // EmitEmptyData makes EmitChunks sometimes put a zero-length data event in front of a chunk's data
 // (a receiver must take it: the interface does not forbid it, and the validator accepts it while the
 // chunk still has bytes outstanding). Set by the properties that look at raw events (C15).
@@ -851,6 +854,12 @@ func EmitChunks(t *rapid.T, out *[]ev.Event, at events.ArrayType, count uint64, 
 	alignChunk := func(c int) int {
 		switch {
 		case bit:
+			// every chunk's data is byte aligned on its own and the array is the bit-wise
+			// concatenation of the chunks (tests/suites/general/arrays.cte has a 3-bit chunk followed
+			// by a 1-bit chunk as a "must succeed" case): mostly aligned, sometimes not
+			if UnalignedBitChunks && c%3 == 0 {
+				return c
+			}
 			return c - c%8
 		case str:
 			for c > 0 && c < len(data) && !utf8.RuneStart(data[c]) {
@@ -868,13 +877,18 @@ func EmitChunks(t *rapid.T, out *[]ev.Event, at events.ArrayType, count uint64, 
 		if hi == lo {
 			continue
 		}
-		var bLo, bHi int
+		var chunk []byte
 		if bit {
-			bLo, bHi = lo/8, (hi+7)/8
+			// the chunk's bits [lo, hi) repacked from bit 0 of its own first byte, trailing bits cleared
+			chunk = make([]byte, (hi-lo+7)/8)
+			for i := lo; i < hi; i++ {
+				if data[i/8]>>(uint(i)%8)&1 == 1 {
+					chunk[(i-lo)/8] |= 1 << (uint(i-lo) % 8)
+				}
+			}
 		} else {
-			bLo, bHi = lo*w, hi*w
+			chunk = data[lo*w : hi*w]
 		}
-		chunk := data[bLo:bHi]
 		j := rapid.IntRange(1, 3).Draw(t, "chunks.j")
 		alignData := func(c int) int {
 			switch {
